@@ -93,3 +93,57 @@ def apexes(draw, depth, allow_none=True):
 
 def schedules(max_size=400):
     return st.lists(st.integers(0, 15), max_size=max_size)
+
+
+# ---------------------------------------------------------------- sky points
+
+import math
+
+
+@st.composite
+def sky_points(draw, lon_turns=4, pole_margin=0.0):
+    """(lon, lat) in radians. Uniform on the sphere plus structurally special points of the
+    TOAST grid (vertices, edge points, the seam, the equator diamond, quadrant-limit meridians,
+    the poles), optionally shifted by multiples of 2*pi."""
+    from . import reftoast as rt
+
+    kind = draw(st.sampled_from(["uniform", "uniform", "vertex", "edge", "seam", "equator", "meridian", "pole", "centre"]))
+    if kind == "uniform":
+        lon = draw(st.floats(0, 2 * math.pi, allow_nan=False))
+        lat = math.asin(draw(st.floats(-1, 1, allow_nan=False)))
+    elif kind in ("vertex", "edge", "centre"):
+        n = draw(st.integers(1, 7))
+        m = 2**n
+        i = draw(st.integers(0, m))
+        j = draw(st.integers(0, m))
+        planetary = draw(st.booleans())
+        x, y = min(i, m - 1), min(j, m - 1)
+        c, inc = rt.tile_corners(n, x, y, planetary)
+        if kind == "vertex":
+            v = c[draw(st.integers(0, 3))]
+        elif kind == "edge":
+            k = draw(st.integers(0, 3))
+            t = draw(st.floats(0.05, 0.95))
+            v = c[k] * (1 - t) + c[(k + 1) % 4] * t
+            v = v / (v**2).sum() ** 0.5
+        else:
+            v = rt.tile_centre(n, x, y, planetary)
+        lo, la = rt.vec_to_lonlat(v)
+        lon, lat = float(lo), float(la)
+    elif kind == "seam":
+        lon = draw(st.sampled_from([0.0, 2 * math.pi, 1e-12, 2 * math.pi - 1e-12, math.pi, math.pi + 1e-12, math.pi - 1e-12]))
+        lat = math.asin(draw(st.floats(-1, 1)))
+    elif kind == "equator":
+        lon = draw(st.floats(0, 2 * math.pi))
+        lat = draw(st.sampled_from([0.0, 1e-13, -1e-13]))
+    elif kind == "meridian":
+        lon = draw(st.integers(0, 8)) * math.pi / 4 + draw(st.sampled_from([0.0, 1e-12, -1e-12]))
+        lat = math.asin(draw(st.floats(-1, 1)))
+    else:
+        lon = draw(st.floats(0, 2 * math.pi))
+        lat = draw(st.sampled_from([math.pi / 2, -math.pi / 2, math.pi / 2 - 1e-9, -math.pi / 2 + 1e-9]))
+    if pole_margin:
+        lim = math.pi / 2 - pole_margin
+        lat = max(-lim, min(lim, lat))
+    turns = draw(st.integers(-lon_turns, lon_turns)) if lon_turns and draw(st.integers(0, 2)) == 0 else 0
+    return {"lon": lon, "lat": lat, "turns": turns, "kind": kind}
